@@ -11,13 +11,20 @@ import json
 import shutil
 
 VERIF = os.path.dirname(os.path.dirname(os.path.abspath(__file__)))
-AUTHOR = ('sub-agent asked for a change that breaks the property only at a boundary value, a rarely used argument kind or mode, '
+AUTHOR_R6 = ('sub-agent asked for a change that breaks the property only at a boundary value, a rarely used argument kind or mode, '
           'a falsy-but-legal value or through two cooperating edits (saw the property text, a scratch worktree and one-line '
           'descriptions of earlier rounds; no /verif)')
 
 
+AUTHORS = {6: AUTHOR_R6,
+           7: ('sub-agent asked to play a maintainer making the tool faster or tidier and getting it subtly wrong: caches and memos '
+               'with too coarse a key or no invalidation, fast paths, lazy evaluation, early exits, shared objects (saw the property '
+               'text, a scratch worktree and one-line descriptions of earlier rounds; no /verif)')}
+
+
 def main():
     src, rnd, desc = sys.argv[1], int(sys.argv[2]), json.load(open(sys.argv[3]))
+    AUTHOR = AUTHORS[rnd]
     for prop in sorted(desc):
         for k, suffix in enumerate(['', '2']):
             d = os.path.join(src, prop)
